@@ -18,13 +18,13 @@ RULE = ('(a) Library round trip through the harness: samples are built in memory
         '(in-memory route, k=17) against `ska build` + the same command on the file.  (c) Narrow files: for k in '
         '{33,35,37,41,51,63}, tables whose stored k-mers all fit in 64 bits (arms starting with enough A) next to ordinary '
         'rows-shifted copies; nk, align, map, distance, weed, delete and merge in both argument orders must agree with the '
-        'model, and nk must report k_bits=128.  (d) One build/save/load/read-out per width under Miri (quick: k=33; thorough: k=9,31,33,63), compared with the native run.  Non-trivial: the file has at least one k-mer and (c) really fits in 64 bits; '
+        'model, and nk must report k_bits=128.  (e) Files whose table is empty after weeding/filtering (samples, no k-mers): read-out and merge as first, last and middle argument against the model.  (d) One build/save/load/read-out per width under Miri (quick: k=33; thorough: k=9,31,33,63), compared with the native run.  Non-trivial: the file has at least one k-mer and (c) really fits in 64 bits; '
         'distinct = distinct (k, mode, input, operation).')
 ASSUMPTIONS = ['in-memory vs reloaded comparison is model-free; part (c) uses the reference model',
                'the harness reload mimics the command-line width dispatch (u64 first, then u128)']
 REQUIRED = {t: ['rt:nk', 'rt:align', 'rt:dist', 'rt:map', 'rt:vcf', 'rt:weed', 'rt:delete', 'cli:align', 'cli:map',
                 'narrow:nk', 'narrow:align', 'narrow:map', 'narrow:distance', 'narrow:weed', 'narrow:delete',
-                'narrow:merge-first', 'narrow:merge-second', 'narrow_files_fit_64_bits', 'multi_frame_files', 'miri_round_trips']
+                'narrow:merge-first', 'narrow:merge-second', 'narrow_files_fit_64_bits', 'multi_frame_files', 'miri_round_trips', 'empty:nk', 'empty:merge-first', 'empty:merge-second', 'empty:merge-middle']
             for t in ('quick', 'thorough')}
 NARROW_K = [33, 35, 37, 41, 51, 63]
 
@@ -52,6 +52,8 @@ def plan(tier, seed, rng, scale):
         d['chk'] = d['kind'] == 'narrow' and i % 4 == 0
     for k in ([33] if tier == 'quick' else [9, 31, 33, 63]):
         descs.append({'kind': 'miri', 'k': k, 'seed': rng.getrandbits(32)})
+    for i in range(int((60 if tier == 'quick' else 600) * scale)):
+        descs.append({'kind': 'empty', 'k': rng.choice([9, 17, 31, 33, 41, 63]), 'rc': rng.random() < 0.7, 'seed': rng.getrandbits(32)})
     return descs
 
 
@@ -374,9 +376,82 @@ def run_miri(desc, ctx, res):
         res.nontrivial.append(fingerprint(['miri', k, desc['seed']]))
 
 
+def run_empty(desc, ctx, res):
+    """A file whose table is empty after filtering (samples, no k-mers) must persist and merge like any other."""
+    k, rcmode = desc['k'], desc['rc']
+    rng = random.Random(desc['seed'])
+    nsE, nsO = rng.randint(1, 3), rng.randint(1, 3)
+    h = (k - 1) // 2
+    recsE = [[G.rseq(rng, rng.randint(k, 2 * k))] for _ in range(nsE)]
+    other = c07.gen_samples(rng, k, nsO) if nsO > 1 else [[G.rseq(rng, rng.randint(k, 4 * k))]]
+    if any(not M.build(r, k, rcmode) for r in recsE + other):
+        res.count('degenerate_sample_skipped')
+        return
+    fE = [G.write_fa(ctx.path('e%d.fa' % i), r) for i, r in enumerate(recsE)]
+    fO = [G.write_fa(ctx.path('o%d.fa' % i), r) for i, r in enumerate(other)]
+    b = ctx.ska
+    if G.ska_build(ctx, ctx.path('empty'), fE, k, rcmode).returncode != 0 or G.ska_build(ctx, ctx.path('other'), fO, k, rcmode).returncode != 0:
+        raise Inconclusive('build failed')
+    how = rng.choice(['weed', 'filter'])
+    if how == 'weed':
+        G.write_fa(ctx.path('all.fa'), [r for s_ in recsE for r in s_])
+        p = ctx.sh(b, 'weed', ctx.path('empty.skf'), ctx.path('all.fa'), '--min-freq', '0')
+    else:
+        p = ctx.sh(b, 'weed', ctx.path('empty.skf'), '--filter', 'no-ambig-or-const', '--min-freq', '0', *(['--no-gap-only-sites'] if nsE > 1 else []))
+        if nsE > 1 and len({tuple(r) for r in recsE}) > 1:
+            # different samples: the filter may keep rows; force emptiness by weeding as well
+            G.write_fa(ctx.path('all.fa'), [r for s_ in recsE for r in s_])
+            p = ctx.sh(b, 'weed', ctx.path('empty.skf'), ctx.path('all.fa'), '--min-freq', '0')
+    namesE = ['e%d' % i for i in range(nsE)]
+    namesO = ['o%d' % i for i in range(nsO)]
+    TO = M.table_of(other, k, rcmode)
+
+    def viol(name, what):
+        res.violate('C09:empty:%s' % name, 'k=%d rc=%s empty-table file (%s): %s' % (k, rcmode, how, what), {'samples': recsE, 'other': other})
+    try:
+        hdr, T = G.nk(ctx, ctx.path('empty.skf'))
+    except (G.NkFailed, ValueError) as e:
+        viol('nk', 'cannot be read back: %s' % e)
+        return
+    res.evals += 1
+    if p.returncode != 0 or T != {} or hdr.get('names') != namesE or hdr.get('k') != str(k) or hdr.get('k_bits') != ('64' if k <= 31 else '128'):
+        viol('nk', 'read-out %s rows, names %s, k_bits %s' % (len(T), hdr.get('names'), hdr.get('k_bits')))
+        return
+    res.count('empty:nk')
+    for order, label in ((('empty', 'other'), 'merge-first'), (('other', 'empty'), 'merge-second'), (('other', 'empty', 'other2'), 'merge-middle')):
+        if label == 'merge-middle':
+            G.write_fa(ctx.path('x.fa'), [G.rseq(rng, 2 * k)])
+            ctx.write('x.tsv', 'x0\t%s\n' % ctx.path('x.fa'))
+            G.ska_build(ctx, ctx.path('other2'), ['-f', ctx.path('x.tsv')], k, rcmode)
+            Tx = M.table_of([[open(ctx.path('x.fa')).read().split('\n')[1]]], k, rcmode)
+        pm = ctx.sh(b, 'merge', *[ctx.path(o + '.skf') for o in order], '-o', ctx.path('m_' + label))
+        res.evals += 1
+        ok = pm.returncode == 0
+        if ok:
+            try:
+                hm, Tm = G.nk(ctx, ctx.path('m_%s.skf' % label))
+                if label == 'merge-first':
+                    expT, expN = M.t_merge({}, nsE, TO, nsO), namesE + namesO
+                elif label == 'merge-second':
+                    expT, expN = M.t_merge(TO, nsO, {}, nsE), namesO + namesE
+                else:
+                    expT, expN = M.t_merge(M.t_merge(TO, nsO, {}, nsE), nsO + nsE, Tx, 1), namesO + namesE + ['x0']
+                ok = Tm == expT and hm.get('names') == expN
+            except (G.NkFailed, ValueError):
+                ok = False
+        if not ok:
+            viol(label, 'merge %s fails or loses samples/rows: %s' % ('+'.join(order), pm.stderr.strip()[-150:]))
+        else:
+            res.count('empty:' + label)
+    res.nontrivial.append(fingerprint(['empty', k, rcmode, desc['seed']]))
+
+
 def run_case(desc, ctx):
     res = Result()
     res.see('k', desc.get('k', 17))
+    if desc['kind'] == 'empty':
+        run_empty(desc, ctx, res)
+        return res
     if desc['kind'] == 'miri':
         run_miri(desc, ctx, res)
         return res
